@@ -78,6 +78,12 @@ type hist struct {
 	validation *config.Validation
 	// noOrphan: never draw only-intended deletes (they leave unmanaged values on the device)
 	noOrphan bool
+	// gnmiWire, if not empty, is the gNMI encoding (proto|json|json_ietf) of a production gNMI target connected to a
+	// gNMI device on loopback; the device configuration is then what that device holds
+	gnmiWire string
+	// bulk > 0: new intent content comes with that many additional list entries every other time (intents with
+	// hundreds of stored entries: batching, paging and buffer limits)
+	bulk int
 }
 
 type histRun struct {
@@ -94,6 +100,51 @@ type histRun struct {
 	canon    []string // canonical request sequence (for the distinctness hash)
 	// setTimeout, if set, replaces the 20 s deadline of TransactionSet calls
 	setTimeout time.Duration
+	// gdev: the gNMI device at the far end of the wire (gnmiWire mode)
+	gdev *fixture.GNMIDevice
+}
+
+// devSnapshot is the configuration the device holds.
+func (r *histRun) devSnapshot() map[string]string {
+	if r.gdev == nil {
+		return r.ds.Dev.Snapshot()
+	}
+	out := r.gdev.Snapshot()
+	// gNMI has no scalar for the YANG empty type: a set leaf of type empty travels as boolean true (proto) or [null] (JSON)
+	for k, v := range out {
+		if v == "true" && emptyLeaves[schemaPathOf(k)] {
+			out[k] = "EMPTY"
+		}
+	}
+	// a container that holds a node exists: a JSON document has no other way to say so
+	for pc := range presenceContainers {
+		if _, ok := out[pc]; !ok && hasDescendant(out, pc) {
+			out[pc] = "EMPTY"
+		}
+	}
+	return out
+}
+
+// emptyLeaves: schema paths of the fixture's leaves of type empty
+var emptyLeaves = map[string]bool{}
+
+func init() {
+	for _, name := range []string{"base+mk+extra+pres+choice"} {
+		for _, l := range poolFor(name) {
+			if l.Kind == "empty" {
+				emptyLeaves[schemaPathOf(l.XPath)] = true
+			}
+		}
+	}
+}
+
+func schemaPathOf(k string) string {
+	p := model.Parse(k)
+	names := make([]string, 0, len(p))
+	for _, e := range p {
+		names = append(names, e.Name)
+	}
+	return "/" + strings.Join(names, "/")
 }
 
 // apiCall runs f recovering a panic of the code under test (decided by C20, inconclusive elsewhere).
@@ -116,11 +167,28 @@ func (h *hist) start(rng *core.Rng, res *core.CaseResult, withRunning bool, view
 	if h.mkTarget != nil {
 		opts.Target = h.mkTarget()
 	}
+	var gdev *fixture.GNMIDevice
+	if h.gnmiWire != "" {
+		var err error
+		if gdev, err = fixture.NewGNMIDevice(); err != nil {
+			res.Inconclusive("wire/no-device", "%v", err)
+		} else {
+			sbi := &config.SBI{Type: "gnmi", Address: "127.0.0.1", Port: gdev.Port(), GnmiOptions: &config.SBIGnmiOptions{Encoding: h.gnmiWire}}
+			tg, err := target.New(context.Background(), "wire", sbi, nil)
+			if err != nil {
+				res.Inconclusive("wire/connect", "%v", err)
+				gdev.Close()
+				gdev = nil
+			} else {
+				opts.Target = tg
+			}
+		}
+	}
 	if h.schemaDec != nil {
 		opts.Schema = h.schemaDec(h.env.Schema)
 	}
 	ds := h.env.NewDS(opts)
-	r := &histRun{h: h, rng: rng, ds: ds, fc: fc, m: model.NewIntents(), initRun: map[string]string{}, usedPrio: map[int32]string{}, res: res, ctx: context.Background()}
+	r := &histRun{h: h, rng: rng, ds: ds, fc: fc, m: model.NewIntents(), initRun: map[string]string{}, usedPrio: map[int32]string{}, res: res, ctx: context.Background(), gdev: gdev}
 	if withRunning {
 		r.seedRunning()
 	}
@@ -171,13 +239,21 @@ func (r *histRun) seedRunning() {
 	if err := r.h.env.Cache.Modify(r.ctx, r.ds.Name, &cache.Opts{Store: cachepb.Store_CONFIG}, nil, upds); err != nil {
 		r.res.Inconclusive("seed-running", "cannot seed running: %v", err)
 	}
+	if r.gdev != nil {
+		r.gdev.SetConfig(r.initRun)
+	}
 	for k, v := range r.initRun {
 		r.ds.Dev.Config[k] = v
 	}
 	r.res.Tracef("initial running: %s", model.SortedMap(r.initRun))
 }
 
-func (r *histRun) close() { r.ds.Close() }
+func (r *histRun) close() {
+	r.ds.Close()
+	if r.gdev != nil {
+		r.gdev.Close()
+	}
+}
 
 // genStep draws one transaction against the current model.
 func (r *histRun) genStep(maxIntents int) []stepIntent {
@@ -250,6 +326,14 @@ func (r *histRun) genStep(maxIntents int) []stepIntent {
 			for j := 0; j < n; j++ {
 				l := r.h.pool[rng.Intn(len(r.h.pool))]
 				si.Vals[l.XPath] = l.Vals[rng.Intn(len(l.Vals))]
+			}
+			if r.h.bulk > 0 && rng.Bool() {
+				off := rng.Intn(20)
+				v := []string{"a", "b", "c"}[rng.Intn(3)]
+				for j := 0; j < r.h.bulk; j++ {
+					si.Vals[fmt.Sprintf("/if[name=b%03d]/descr", off+j)] = v
+				}
+				si.Kind += "-bulk"
 			}
 		}
 		taken[si.Prio] = true
@@ -422,7 +506,7 @@ func (r *histRun) commit(step []stepIntent) (setOutcome, bool) {
 
 // checkDevice is the C01 oracle.
 func (r *histRun) checkDevice(tag string, rsp *sdcpb.TransactionSetResponse) {
-	D := r.ds.Dev.Snapshot()
+	D := r.devSnapshot()
 	W := r.m.Winners()
 	for k, w := range W {
 		dv, ok := D[k]
@@ -454,11 +538,11 @@ func (r *histRun) checkDevice(tag string, rsp *sdcpb.TransactionSetResponse) {
 		if _, ok := W[k]; ok {
 			continue
 		}
+		if presenceContainers[k] && hasDescendant(D, k) {
+			// a presence container that holds a node exists by necessity: {/pres/b} cannot be represented without /pres
+			continue
+		}
 		if r.m.Ever[k] {
-			if presenceContainers[k] && hasDescendant(D, k) {
-				// a presence container that holds a node exists by necessity: {/pres/b} cannot be represented without /pres
-				continue
-			}
 			if !r.m.Orphaned[k] {
 				r.res.Violate("C01/stale"+featureOf(k), "%s: device still has %s=%s although no live intent defines it\n  model: %s", tag, k, dv, r.m)
 			}
